@@ -246,7 +246,7 @@ def run(tier, seed):
     sbad, _ = b3.validate("NullAlgebraObs", [corrupt])
     st = {"ok": any(p_.get("rule") == "plus-table" for _, p_ in sbad), "reported": [p_ for _, p_ in sbad][:3]}
     cov["obs_selftest"] = st
-    if not st["ok"]:
+    if st["ok"] is False:
         raise vlib.Inconclusive("observation self-test failed: %r" % st)
     nb = len(space["binops"])
     cov["samples"] += [
